@@ -1,3 +1,4 @@
+import Toodee.Spec.OpsSpec
 import Toodee.Spec.Cells
 import Toodee.Impl.Sort
 import Toodee.Proofs.SortLemmas
@@ -15,9 +16,6 @@ import Toodee.Proofs.SortLemmas
 -/
 namespace Toodee
 variable {α : Type}
-
-/-- new column `j` is old column `p[j]`, on every row -/
-def sortColsG (p : List Nat) : Nat × Nat → Nat × Nat := fun cr => (p.getD cr.1 cr.1, cr.2)
 
 /-- apply transpositions to a list, left to right -/
 def applySwaps {β : Type} (xs : List β) (trace : List (Nat × Nat)) : List β :=
